@@ -18,7 +18,7 @@ import time as _real_time
 import zoneinfo
 
 from .core import RunResult
-from .gw import GwWorld, gc_paused
+from .gw import GwWorld, gc_paused, snapshot_nodes
 from .model import Model
 
 from aiomysensors.model.node import Child, Node  # noqa: E402  (repo, via use_repo in gw)
@@ -102,6 +102,23 @@ def execute(scn: dict, prop: str, aspects, on_step=None, send_strict=(1,), keep=
                         res.probes["context_reentered"] += 1
                         if err and not (w.disk is not None and err in ("PersistenceWriteError", "PersistenceReadError")):
                             disc.append(("outcome", f"reenter-raised:{err}", str(op)))
+                        if w.disk is not None:
+                            # the reboot flag is not part of the persisted record: after a reload it is whatever the
+                            # reloaded Node objects say
+                            for nid, node in model.nodes.items():
+                                if nid in w.gateway.nodes:
+                                    node["reboot"] = bool(w.gateway.nodes[nid].reboot)
+                        if w.disk is not None and w.disk.fired:
+                            # a failed save followed by a reload may bring back older attributes of nodes that are in
+                            # the file (disk faults are outside every gateway-level property): adopt those attributes,
+                            # but never forget a node - the node SET must still be what the model says
+                            snap = snapshot_nodes(w.gateway)
+                            for nid, d in snap.items():
+                                if nid in model.nodes:
+                                    keep_reboot = model.nodes[nid]["reboot"]
+                                    model.load_registry_keep_flags({**model.snapshot(), nid: d})
+                                    model.nodes[nid]["reboot"] = keep_reboot
+                            model.relaxations["stale-attributes-after-failed-save"] += 1
                 elif kind == "reboot":
                     n = op[1]
                     if n in w.gateway.nodes:
